@@ -610,7 +610,45 @@ func (p *OAuthProxy) Proxy(rw http.ResponseWriter, req *http.Request) {
 	overhead := time.Now().Sub(start)
 	p.StatsdClient.Timing("request_overhead", overhead, tags, 1.0)
 
+	sanitizeConnectionHeader(req.Header)
 	p.handler.ServeHTTP(rw, req)
+}
+
+// sanitizeConnectionHeader removes from the client's Connection header every token that names a
+// header the proxy asserts or signs. The reverse proxy treats headers listed in Connection as
+// hop-by-hop and drops them when forwarding, which would otherwise let a client strip the
+// identity headers, the cookies or the request signature after they were set and signed.
+func sanitizeConnectionHeader(h http.Header) {
+	values, ok := h["Connection"]
+	if !ok {
+		return
+	}
+	protected := map[string]struct{}{
+		http.CanonicalHeaderKey(signatureHeader):     {},
+		http.CanonicalHeaderKey(signingKeyHeader):    {},
+		http.CanonicalHeaderKey(HMACSignatureHeader): {},
+	}
+	for _, name := range SignatureHeaders {
+		protected[http.CanonicalHeaderKey(name)] = struct{}{}
+	}
+	kept := make([]string, 0, len(values))
+	for _, value := range values {
+		for _, token := range strings.Split(value, ",") {
+			token = strings.TrimSpace(token)
+			if token == "" {
+				continue
+			}
+			if _, ok := protected[http.CanonicalHeaderKey(token)]; ok {
+				continue
+			}
+			kept = append(kept, token)
+		}
+	}
+	if len(kept) == 0 {
+		h.Del("Connection")
+		return
+	}
+	h.Set("Connection", strings.Join(kept, ", "))
 }
 
 // identityHeaders are the request headers through which the proxy asserts the authenticated
